@@ -454,4 +454,14 @@ def exec_programs(programs, timeout=3600):
     out = [json.loads(l) for l in p.stdout.decode("utf-8", "replace").split("\n") if l.strip()]
     if len(out) != len(programs):
         raise RuntimeError(f"exec oracle returned {len(out)} answers for {len(programs)} programs: {p.stderr.decode()[-500:]}")
+    # A wall-clock `timeout` of a compiled program is not a verdict: programs of a batch run side by
+    # side and the machine may be loaded. Re-run such a program alone with a 6x budget; only a program
+    # that times out again (a real hang / blow-up) keeps `timeout`. (Programs that are EXPECTED to hang
+    # pass their own small timeout_ms and "no_retry": true.)
+    for i, (prog, ans) in enumerate(zip(programs, out)):
+        if prog.get("no_retry") or prog.get("_retried"):
+            continue
+        if any(isinstance(ans.get(side), dict) and ans[side].get("end") == "timeout" for side in ("wasm", "ts")):
+            again = dict(prog, timeout_ms=int(prog.get("timeout_ms", 10000)) * 6, _retried=True)
+            out[i] = exec_programs([again], timeout=timeout)[0]
     return out
